@@ -457,6 +457,10 @@ oscore_duplicate_ctx(coap_context_t *c_context,
   osc_ctx->hkdf_alg = o_osc_ctx->hkdf_alg;
   if (id_context)
     osc_ctx->id_context = coap_new_bin_const(id_context->s, id_context->length);
+  if ((o_osc_ctx->master_secret && !osc_ctx->master_secret) ||
+      (o_osc_ctx->master_salt && !osc_ctx->master_salt) ||
+      (id_context && !osc_ctx->id_context))
+    goto error;
   osc_ctx->ssn_freq = o_osc_ctx->ssn_freq;
   osc_ctx->replay_window_size = o_osc_ctx->replay_window_size;
   osc_ctx->rfc8613_b_1_2 = o_osc_ctx->rfc8613_b_1_2;
@@ -492,12 +496,17 @@ oscore_duplicate_ctx(coap_context_t *c_context,
   sender_ctx->seq = 0;
 
   sender_ctx->sender_id = coap_new_bin_const(sender_id->s, sender_id->length);
+  if (sender_ctx->sender_id == NULL)
+    goto error;
 
   copy_rid = coap_new_bin_const(recipient_id->s, recipient_id->length);
   if (copy_rid == NULL)
     goto error;
-  if (oscore_add_recipient(osc_ctx, copy_rid, 0) == NULL)
+  if (oscore_add_recipient(osc_ctx, copy_rid, 0) == NULL) {
+    /* a new context has no recipient yet: the copy was not taken over */
+    coap_delete_bin_const(copy_rid);
     goto error;
+  }
 
   oscore_log_context(osc_ctx, "New Common context");
   oscore_enter_context(c_context, osc_ctx);
